@@ -61,10 +61,6 @@ def monRing (s : St) (eps : List Endpoint) (minSize maxSize : Nat) (impl : Strin
   | some n, some counts, some items =>
     if weightSum eps ≠ eps.foldl (fun a e => a + e.weight) 0 || eps.any (·.weight = 0) then "-" else
     if items.length ≠ n || counts.length ≠ eps.length || counts.foldl (· + ·) 0 ≠ n then "VIOL inconsistent ring description"
-    else if n = maxSize + 1 && asFloatPort then
-      -- exactly the ring the float64 port of the unchanged newRing produces (known finding F14); any other
-      -- way of exceeding the bound gets the generic verdict below
-      s!"VIOL ring has {n} entries = max_ring_size + 1 (float64 accumulation of targetHashes, as the port of the unchanged code predicts)"
     else if n > maxSize then s!"VIOL ring has {n} entries, max_ring_size is {maxSize}"
     else if n < minSize then s!"VIOL ring has {n} entries, min_ring_size is {minSize}"
     else if !sortedStrict items then "VIOL ring is not sorted by hash"
